@@ -57,7 +57,7 @@ theorem flushall_empties_all (s : State) (j : Nat) (d : Db) (h : (flushAll s).db
     · exact ih h
 
 /-- non-vacuity: a concrete two-database state and a write under database 0 -/
-example : (step ⟨0, 1000, {}⟩ ⟨[(0, ⟨[], []⟩), (1, ⟨[(b "k", ⟨.str (b "v"), none⟩)], []⟩)], 0⟩
+example : (step { db := 0, now := 1000 } ⟨[(0, ⟨[], []⟩), (1, ⟨[(b "k", ⟨.str (b "v"), none⟩)], []⟩)], 0⟩
             [b "set", b "k", b "x"]).map (fun r => r.1.dbs.get 1)
           = some (some ⟨[(b "k", ⟨.str (b "v"), none⟩)], []⟩) := by decide
 
